@@ -91,6 +91,21 @@ fn builder_script(params: &[i64]) -> ArrayRef {
         6 => run!(FixedSizeBinaryBuilder::new(3), |b: &mut FixedSizeBinaryBuilder, v: i64| { let _ = b.append_value([v as u8, 1, 2]); }, |b: &mut FixedSizeBinaryBuilder| b.append_null()),
         7 => run!(PrimitiveDictionaryBuilder::<Int8Type, Int32Type>::new(), |b: &mut PrimitiveDictionaryBuilder<Int8Type, Int32Type>, v: i64| { let _ = b.append((v % 9) as i32); }, |b: &mut PrimitiveDictionaryBuilder<Int8Type, Int32Type>| b.append_null()),
         8 => run!(LargeBinaryBuilder::new(), |b: &mut LargeBinaryBuilder, v: i64| b.append_value(s_of(v).as_bytes()), |b: &mut LargeBinaryBuilder| b.append_null()),
+        10 | 11 => { // view builders incl. append_array of another view array while a long value is still un-flushed
+            let mut other = StringViewBuilder::new().with_fixed_block_size(64);
+            for k in 0..5 { if k % 2 == 0 { other.append_value(format!("long-value-number-{k}-xxxxxxxxxxxxxxxx")) } else { other.append_value("s") } }
+            let other = other.finish();
+            let mut b = if kind == 10 { StringViewBuilder::new() } else { StringViewBuilder::new().with_fixed_block_size(40) };
+            let mut i = 0;
+            while i < ops.len() { match ops[i] {
+                0 => { let v = ops.get(i + 1).copied().unwrap_or(0); b.append_value(format!("{}{}", if v % 2 == 0 { "a-value-longer-than-twelve-bytes-" } else { "" }, v)); i += 2 }
+                1 => { b.append_null(); i += 1 }
+                2 => { b.append_array(&other); i += 2 }
+                3 => { let _ = b.finish_cloned(); i += 1 }
+                _ => { let o = ops.get(i + 1).copied().unwrap_or(0) as usize % 5; b.append_array(&other.slice(o, 5 - o)); i += 3 }
+            } }
+            std::sync::Arc::new(b.finish()) as ArrayRef
+        }
         _ => run!(FixedSizeListBuilder::new(Int32Builder::new(), 2), |b: &mut FixedSizeListBuilder<Int32Builder>, v: i64| { b.values().append_value(v as i32); b.values().append_null(); b.append(true) }, |b: &mut FixedSizeListBuilder<Int32Builder>| { b.values().append_null(); b.values().append_null(); b.append(false) }),
     }
 }
@@ -145,6 +160,25 @@ fn run_kernel(k: usize, params: &[i64], ins: &[ArrayRef]) -> Option<Result<Array
             match conv { Ok(c) => c.convert_columns(&[x.clone()]).and_then(|rows| c.convert_rows(rows.iter())).map(|mut v| v.remove(0)), Err(_) => return None } }
         12 => arrow_select::zip::zip(&to_bool_array(params), &ins[0], &ins[1]),
         13 => Ok(builder_script(params)),
+        14 => { // garbage collection of view arrays (null slots may hold long views)
+            use arrow_array::cast::AsArray;
+            match x.data_type() { DataType::Utf8View => Ok(std::sync::Arc::new(x.as_string_view().gc()) as ArrayRef), DataType::BinaryView => Ok(std::sync::Arc::new(x.as_binary_view().gc()) as ArrayRef), _ => return None } }
+        15 => { // Dictionary<Int8, Binary> whose values are pieces of UTF-8 text cut at arbitrary byte positions, cast to text types
+            use arrow_array::{BinaryArray, DictionaryArray, Int8Array};
+            let text = "aé€😀ßxyz日本".as_bytes();
+            let mut vals: Vec<&[u8]> = Vec::new(); let mut i = 0usize; let mut pi = 2usize;
+            while i < text.len() { let step = (1 + (params.get(pi).copied().unwrap_or(1) as usize) % 3).min(text.len() - i); vals.push(&text[i..i + step]); i += step; pi += 1; }
+            let nvals = vals.len();
+            let values = BinaryArray::from_iter_values(vals);
+            let nkeys = (params[1] as usize) % 5;
+            let keys = Int8Array::from((0..nkeys).map(|k| { let v = params.get(2 + k).copied().unwrap_or(0); if v % 7 == 0 { None } else { Some((v as usize % nvals) as i8) } }).collect::<Vec<_>>());
+            let d = DictionaryArray::try_new(keys, std::sync::Arc::new(values)).ok()?;
+            let to = match params[0] % 4 { 0 => DataType::Utf8View, 1 => DataType::Utf8, 2 => DataType::LargeUtf8, _ => DataType::Dictionary(Box::new(DataType::Int8), Box::new(DataType::Utf8View)) };
+            if arrow_cast::can_cast_types(d.data_type(), &to) { arrow_cast::cast(&d, &to) } else { return None } }
+        16 => { // take with more indices than an Int16 run-end can count
+            let n = params[0] as usize; let len = x.len(); if len == 0 { return None }
+            let idx = UInt32Array::from((0..n).map(|i| ((i * 7 + params[1] as usize) % len) as u32 * (params[2] as u32 % 2) ).collect::<Vec<_>>());
+            arrow_select::take::take(x.as_ref(), &idx, None) }
         _ => return None,
     };
     Some(out)
@@ -154,7 +188,8 @@ pub fn generate(tier: &str, r: &mut Rng, emit: &mut dyn FnMut(Case)) {
     let n = if tier == "thorough" { 30000 } else { 3000 };
     for _ in 0..n {
         let ty = c09::gen_ty(r, 2);
-        let k = r.below(14);
+        let k = match r.below(40) { 0 => 16, 1 | 2 => 15, 3 | 4 => 14, x => x % 14 };
+        let ty = if k == 14 { Ty::View { utf8: r.bool() } } else if k == 16 { Ty::Ree { rw: 2, v: Box::new(Ty::Fixed(4)) } } else { ty };
         let nin = match k { 3 | 4 | 9 => 1 + r.below(3), 12 => 2, _ => 1 };
         let len0 = if r.chance(1, 10) { 0 } else { r.below(12) };
         let mut nodes = Vec::new();
@@ -169,7 +204,10 @@ pub fn generate(tier: &str, r: &mut Rng, emit: &mut dyn FnMut(Case)) {
             8 => vec![r.below(len0 + 2) as i64],
             9 => (0..r.below(6)).flat_map(|_| if r.chance(1, 5) { vec![-1, r.below(4) as i64, 0] } else { let i = r.below(nin); let l = nodes[i].len; let s = r.below(l + 1); vec![i as i64, s as i64, (s + r.below(l - s + 1)) as i64] }).collect(),
             10 => vec![r.below(8) as i64],
-            13 => { let mut v = vec![r.below(10) as i64]; for _ in 0..r.below(12) { match r.below(6) { 0 | 1 => v.extend([0, r.below(40) as i64]), 2 => v.push(1), 3 => v.extend([2, r.below(70) as i64]), 4 => v.push(3), _ => v.extend([4, r.below(40) as i64, r.below(70) as i64]) } } v }
+            14 => vec![],
+            15 => (0..14).map(|_| r.below(50) as i64).collect(),
+            16 => vec![*r.pick(&[33000i64, 40000, 70000]), r.below(7) as i64, r.below(2) as i64],
+            13 => { let mut v = vec![r.below(12) as i64]; for _ in 0..r.below(12) { match r.below(6) { 0 | 1 => v.extend([0, r.below(40) as i64]), 2 => v.push(1), 3 => v.extend([2, r.below(70) as i64]), 4 => v.push(3), _ => v.extend([4, r.below(40) as i64, r.below(70) as i64]) } } v }
             _ => vec![],
         };
         let mut args: Args = vec![g(k), gs(&params), g(nin)];
